@@ -132,7 +132,7 @@ def recoverGuard : String := "r := recover(); r != nil"
 /-- C14: PatchesFromDocument -/
 def fromDocumentCases : List (String × String) :=
   [("publicKey", "NewAddPublicKeysPatch"), ("service", "NewAddServiceEndpointsPatch"), ("alsoKnownAs", "NewAddAlsoKnownAs")]
-def jsonPatchAddTemplate : String := "{ \"op\": \"add\", \"path\": \"/%s\", \"value\": %s }"
+def jsonPatchAddTemplate : String := "{ \"op\": \"add\", \"path\": %s, \"value\": %s }"
 
 /-- C03: the unique suffix is the model multihash of the suffix data under the *first* configured algorithm -/
 def uniqueSuffixCalls : List String := ["hashing.CalculateModelMultihash(model, algs[0])"]
